@@ -93,10 +93,16 @@ func (v Verdict) String() string {
 const maxTasks = 160
 const maxLocks = 1024
 
+// lockEnt mirrors the state of one sync.Mutex / sync.RWMutex the way Go implements it: a writer
+// first takes the writers' gate and thereby announces itself (from then on new readers wait),
+// then waits for the active readers to leave; Unlock admits every reader that waited behind the
+// writer at once, before the next writer can announce itself. A recursive RLock with a writer
+// announced in between therefore blocks here exactly as it does in a real program.
 type lockEnt struct {
 	addr    uintptr
+	gate    int // task id+1 of the writer that is announced or holds the lock, 0 none
 	writer  int // task id+1 holding it exclusively, 0 none
-	readers int
+	readers int // active readers
 }
 
 // Policy selects the next task.
@@ -587,6 +593,11 @@ type LockCond struct {
 	k     *Kernel
 	addr  uintptr
 	write bool
+	// phase of a writer: 1 waits for the writers' gate, 2 (announced) waits for the active
+	// readers to leave
+	phase int
+	// admitted: a reader that waited behind a writer and was admitted by that writer's Unlock
+	admitted bool
 }
 
 //go:norace
@@ -596,9 +607,12 @@ func (l *LockCond) Enabled(int64) bool {
 		return true
 	}
 	if l.write {
-		return e.writer == 0 && e.readers == 0
+		if l.phase == 2 {
+			return e.readers == 0
+		}
+		return e.gate == 0
 	}
-	return e.writer == 0
+	return l.admitted || e.gate == 0
 }
 
 //go:norace
@@ -625,11 +639,23 @@ func (k *Kernel) lockEnt(addr uintptr, create bool) *lockEnt {
 //go:norace
 func (k *Kernel) grant(t *Task, l *LockCond) {
 	e := k.lockEnt(l.addr, true)
-	if l.write {
+	switch {
+	case l.write && l.phase == 2:
 		e.writer = t.ID + 1
-	} else {
+	case l.write:
+		e.gate = t.ID + 1
+		if e.readers == 0 {
+			e.writer = t.ID + 1
+		}
+	case !l.admitted:
 		e.readers++
 	}
+}
+
+//go:norace
+func (k *Kernel) holdsWrite(addr uintptr) bool {
+	e := k.lockEnt(addr, false)
+	return e == nil || e.writer != 0
 }
 
 // AcquireLock parks the current task until the lock at addr is free and marks it taken. The
@@ -638,7 +664,11 @@ func (k *Kernel) AcquireLock(addr uintptr, write bool, point int) {
 	if k.isAborting() || k.Current() == nil {
 		return
 	}
-	k.Park(nil, &LockCond{k: k, addr: addr, write: write}, point)
+	k.Park(nil, &LockCond{k: k, addr: addr, write: write, phase: 1}, point)
+	if write && !k.isAborting() && !k.holdsWrite(addr) {
+		// announced, readers still active
+		k.Park(nil, &LockCond{k: k, addr: addr, write: true, phase: 2}, point)
+	}
 }
 
 //go:norace
@@ -656,7 +686,18 @@ func (k *Kernel) ReleaseLock(addr uintptr, write bool) {
 		return
 	}
 	if write {
-		e.writer = 0
+		e.writer, e.gate = 0, 0
+		// every reader that waited behind this writer is admitted now
+		for i := 0; i < k.ntasks; i++ {
+			t := k.tasks[i]
+			if t.state != tParked {
+				continue
+			}
+			if lc, ok := t.cond.(*LockCond); ok && lc.addr == addr && !lc.write && !lc.admitted {
+				lc.admitted = true
+				e.readers++
+			}
+		}
 	} else if e.readers > 0 {
 		e.readers--
 	}
